@@ -244,7 +244,7 @@ func (e *c07Env) open() {
 	}
 }
 
-func randVal(r *rand.Rand) []byte {
+func c07randVal(r *rand.Rand) []byte {
 	switch r.Intn(6) {
 	case 0:
 		return []byte{}
@@ -271,7 +271,7 @@ func (e *c07Env) write(h *c07Handle) {
 		h.ov.writes[full] = nil
 		e.log("%s.Delete(%x)", h.desc, full)
 	} else {
-		v := randVal(e.r)
+		v := c07randVal(e.r)
 		if err := h.view.Put(k, v); err != nil {
 			e.fail("view-put-error", "Put(%x) on %s: %v", k, h.desc, err)
 		}
@@ -317,21 +317,21 @@ func (e *c07Env) readKey(h *c07Handle, k []byte) {
 	}
 	if present {
 		if err != nil || !bytes.Equal(got, want) {
-			e.fail(fmt.Sprintf("get-mismatch %s %s %s", e.kind, viewKind(h), outcome), "%s.Get(%x) = (%x,%v), model says present with value %x", h.desc, full, got, err, want)
+			e.fail(fmt.Sprintf("get-mismatch %s %s %s", e.kind, c07viewKind(h), outcome), "%s.Get(%x) = (%x,%v), model says present with value %x", h.desc, full, got, err, want)
 		}
 	} else {
 		if err != leveldb.ErrNotFound {
-			e.fail(fmt.Sprintf("get-mismatch %s %s %s", e.kind, viewKind(h), outcome), "%s.Get(%x) = (%x,%v), model says absent (ErrNotFound)", h.desc, full, got, err)
+			e.fail(fmt.Sprintf("get-mismatch %s %s %s", e.kind, c07viewKind(h), outcome), "%s.Get(%x) = (%x,%v), model says absent (ErrNotFound)", h.desc, full, got, err)
 		}
 	}
 	has, err := h.view.Has(k)
 	e.c.Eval(1)
 	if err != nil || has != present {
-		e.fail(fmt.Sprintf("has-mismatch %s %s %s", e.kind, viewKind(h), outcome), "%s.Has(%x) = (%v,%v), model says %v", h.desc, full, has, err, present)
+		e.fail(fmt.Sprintf("has-mismatch %s %s %s", e.kind, c07viewKind(h), outcome), "%s.Has(%x) = (%v,%v), model says %v", h.desc, full, has, err, present)
 	}
 }
 
-func viewKind(h *c07Handle) string {
+func c07viewKind(h *c07Handle) string {
 	if h.history {
 		return "historical"
 	}
@@ -374,7 +374,7 @@ func (e *c07Env) scan(h *c07Handle, prefix []byte) {
 			hasEmpty = true
 		}
 	}
-	oc := fmt.Sprintf("n=%d", min(len(want), 3))
+	oc := fmt.Sprintf("n=%d", c07min(len(want), 3))
 	if hasEmpty {
 		oc += "+empty"
 	}
@@ -384,11 +384,11 @@ func (e *c07Env) scan(h *c07Handle, prefix []byte) {
 		return
 	}
 	if !ordered {
-		e.fail("scan-unordered "+e.kind+" "+viewKind(h), "%s.NewIterator(%x) keys not strictly increasing: %x", h.desc, prefix, got)
+		e.fail("scan-unordered "+e.kind+" "+c07viewKind(h), "%s.NewIterator(%x) keys not strictly increasing: %x", h.desc, prefix, got)
 		return
 	}
 	if len(got) != len(want) {
-		sig := fmt.Sprintf("scan-mismatch %s %s", e.kind, viewKind(h))
+		sig := fmt.Sprintf("scan-mismatch %s %s", e.kind, c07viewKind(h))
 		if hasEmpty {
 			// got ⊆ model with equal values, and every model key that is missing has an empty value?
 			gm := map[string][]byte{}
@@ -399,9 +399,9 @@ func (e *c07Env) scan(h *c07Handle, prefix []byte) {
 			for _, k := range want {
 				wm[k], _ = h.ov.lookup(k)
 			}
-			exact := dumpOmitsOnlyEmpty(gm, wm)
+			exact := c07dumpOmitsOnlyEmpty(gm, wm)
 			if exact {
-				sig = fmt.Sprintf("scan-omits-present-empty-keys %s %s", e.kind, viewKind(h))
+				sig = fmt.Sprintf("scan-omits-present-empty-keys %s %s", e.kind, c07viewKind(h))
 			}
 		}
 		e.fail(sig, "%s scan(%x) returned %d present keys %x, model says %d: %x", h.desc, fullPrefix, len(got), got, len(want), want)
@@ -410,7 +410,7 @@ func (e *c07Env) scan(h *c07Handle, prefix []byte) {
 	for i := range want {
 		wv, _ := h.ov.lookup(want[i])
 		if got[i] != want[i] || !bytes.Equal(gotVals[got[i]], wv) {
-			e.fail(fmt.Sprintf("scan-mismatch %s %s", e.kind, viewKind(h)), "%s scan(%x) entry %d = (%x,%x), model says (%x,%x)", h.desc, fullPrefix, i, got[i], gotVals[got[i]], want[i], wv)
+			e.fail(fmt.Sprintf("scan-mismatch %s %s", e.kind, c07viewKind(h)), "%s scan(%x) entry %d = (%x,%x), model says (%x,%x)", h.desc, fullPrefix, i, got[i], gotVals[got[i]], want[i], wv)
 			return
 		}
 	}
@@ -469,7 +469,7 @@ func (e *c07Env) commitMulti(nCommits int) {
 			_ = v.Delete(k)
 			delete(next, string(k))
 		} else {
-			val := randVal(e.r)
+			val := c07randVal(e.r)
 			_ = v.Put(k, val)
 			next[string(k)] = append([]byte{}, val...)
 		}
@@ -684,7 +684,7 @@ func c07Run(c *fw.C, caseID string) {
 			case 0:
 				id = e.chain[0]
 			case 1:
-				id = e.chain[len(e.chain)-1-r.Intn(min(len(e.chain), 4))]
+				id = e.chain[len(e.chain)-1-r.Intn(c07min(len(e.chain), 4))]
 			default:
 				id = e.chain[r.Intn(len(e.chain))]
 			}
@@ -705,7 +705,7 @@ func c07Run(c *fw.C, caseID string) {
 			hd := e.handles[r.Intn(len(e.handles))]
 			if r.Intn(8) == 0 {
 				// bookkeeping keys too
-				keys := h0Keys(hd.pinned)
+				keys := c07h0Keys(hd.pinned)
 				e.readKey(hd, keys[r.Intn(len(keys))])
 			} else {
 				e.readKey(hd, c07Alphabet[r.Intn(len(c07Alphabet))])
@@ -747,7 +747,7 @@ func c07Run(c *fw.C, caseID string) {
 						p.Delete(k)
 						hd.ov.writes[full] = nil
 					} else {
-						v := randVal(r)
+						v := c07randVal(r)
 						p.Put(k, v)
 						vv := append([]byte{}, v...)
 						hd.ov.writes[full] = &vv
@@ -811,7 +811,7 @@ func c07Run(c *fw.C, caseID string) {
 	}
 }
 
-func h0Keys(id types.HashHeight) [][]byte {
+func c07h0Keys(id types.HashHeight) [][]byte {
 	var l [][]byte
 	for k := range c07FrontierKeys(id, nil) {
 		l = append(l, []byte(k))
@@ -829,7 +829,7 @@ func (e *c07Env) checkChanges(h *c07Handle) {
 			e.fail("changes-error "+e.kind, "%s.Changes(): %v", h.desc, err)
 			return
 		}
-		got := replayPatch(p)
+		got := c07replayPatch(p)
 		want := map[string]*[]byte{}
 		for k, w := range h.ov.writes {
 			if len(k) >= len(h.prefix) && k[:len(h.prefix)] == h.prefix {
@@ -845,11 +845,11 @@ func (e *c07Env) checkChanges(h *c07Handle) {
 		e.fail("changes-error "+e.kind, "%s.Changes(): %v", h.desc, err)
 		return
 	}
-	e.compareChanges(h, replayPatch(p), h.ov.writes)
+	e.compareChanges(h, c07replayPatch(p), h.ov.writes)
 }
 
 func (e *c07Env) compareChanges(h *c07Handle, got, want map[string]*[]byte) {
-	e.c.Distinct(fmt.Sprintf("%s/changes/%s/n=%d", e.kind, e.class(h), min(len(want), 3)))
+	e.c.Distinct(fmt.Sprintf("%s/changes/%s/n=%d", e.kind, e.class(h), c07min(len(want), 3)))
 	if len(got) != len(want) {
 		e.fail("changes-mismatch "+e.kind, "%s.Changes() has %d entries, the view made %d distinct writes", h.desc, len(got), len(want))
 		return
@@ -863,18 +863,18 @@ func (e *c07Env) compareChanges(h *c07Handle, got, want map[string]*[]byte) {
 	}
 }
 
-type patchCollector struct{ m map[string]*[]byte }
+type c07patchCollector struct{ m map[string]*[]byte }
 
-func (pc *patchCollector) Put(k, v []byte) { vv := append([]byte{}, v...); pc.m[string(k)] = &vv }
-func (pc *patchCollector) Delete(k []byte) { pc.m[string(k)] = nil }
+func (pc *c07patchCollector) Put(k, v []byte) { vv := append([]byte{}, v...); pc.m[string(k)] = &vv }
+func (pc *c07patchCollector) Delete(k []byte) { pc.m[string(k)] = nil }
 
-func replayPatch(p db.Patch) map[string]*[]byte {
-	pc := &patchCollector{m: map[string]*[]byte{}}
+func c07replayPatch(p db.Patch) map[string]*[]byte {
+	pc := &c07patchCollector{m: map[string]*[]byte{}}
 	_ = p.Replay(pc)
 	return pc.m
 }
 
-func min(a, b int) int {
+func c07min(a, b int) int {
 	if a < b {
 		return a
 	}
@@ -959,7 +959,7 @@ func c07Concurrent(c *fw.C, caseID string, idx int) {
 							continue
 						}
 					}
-					if !dumpEquals(dump, want) {
+					if !c07dumpEquals(dump, want) {
 						report("concurrent-frontier-mixed-state "+kind, fmt.Sprintf("Frontier() snapshot with identifier %v has %d keys that do not equal the state committed as %v (%d keys): a half-applied commit/rollback was observed", id, len(dump), id, len(want)))
 					}
 					continue
@@ -1007,8 +1007,8 @@ func c07Concurrent(c *fw.C, caseID string, idx int) {
 					}
 					it.Release()
 					atomic.AddInt64(&reads, 1)
-					if !dumpEquals(dump, want) {
-						if dumpOmitsOnlyEmpty(dump, want) {
+					if !c07dumpEquals(dump, want) {
+						if c07dumpOmitsOnlyEmpty(dump, want) {
 							if atomic.AddInt32(&omitReported, 1) == 1 {
 								c.Violation("scan-omits-present-empty-keys "+kind+" historical", map[string]interface{}{"what": fmt.Sprintf("concurrent reader: view at %v: full scan has %d keys, model %d; the missing ones are exactly the present keys with empty value", id, len(dump), len(want))})
 							}
@@ -1058,7 +1058,7 @@ func c07Concurrent(c *fw.C, caseID string, idx int) {
 				_ = v.Delete(k)
 				delete(next, string(k))
 			} else {
-				val := randVal(r)
+				val := c07randVal(r)
 				_ = v.Put(k, val)
 				next[string(k)] = append([]byte{}, val...)
 			}
@@ -1095,7 +1095,7 @@ func c07Concurrent(c *fw.C, caseID string, idx int) {
 	}
 }
 
-func dumpEquals(got map[string][]byte, want c07State) bool {
+func c07dumpEquals(got map[string][]byte, want c07State) bool {
 	if len(got) != len(want) {
 		return false
 	}
@@ -1107,7 +1107,7 @@ func dumpEquals(got map[string][]byte, want c07State) bool {
 	return true
 }
 
-func dumpOmitsOnlyEmpty(got map[string][]byte, want c07State) bool {
+func c07dumpOmitsOnlyEmpty(got map[string][]byte, want c07State) bool {
 	n := 0
 	for k, v := range want {
 		g, ok := got[k]
